@@ -158,7 +158,3 @@ func cmdUnit(args []string) {
 	}
 }
 
-func cmdCheck(args []string) {
-	fmt.Println("not implemented yet")
-	os.Exit(2)
-}
